@@ -502,10 +502,16 @@ func (m *c16) sequences() {
 			}
 		}
 		c.Exhaustive(fmt.Sprintf("%s: all ordered pairs of %d operations", probe.typ, nops))
-		// the decode/encode-reuse worlds are cheap: every sequence of three and of four operations as well
-		// (decode A, encode, decode B, encode - the shortest history in which a recycled buffer shows - has length four)
-		if strings.HasPrefix(probe.typ, "reuse:") {
-			for l := 3; l <= 4; l++ {
+		// every sequence of three operations as well (finalize, the caller writes into its token, finalize again is the
+		// shortest history in which a token assembled inside the state's buffer shows), and of four in the cheap
+		// decode/encode-reuse worlds and in the thorough tier (decode A, encode, decode B, encode - the shortest history in
+		// which a recycled encoding buffer shows)
+		maxL := 3
+		if strings.HasPrefix(probe.typ, "reuse:") || c.Thorough() {
+			maxL = 4
+		}
+		{
+			for l := 3; l <= maxL; l++ {
 				total := 1
 				for i := 0; i < l; i++ {
 					total *= nops
@@ -523,7 +529,7 @@ func (m *c16) sequences() {
 					m.runSequence(mk, idx, c.CaseRng())
 				}
 			}
-			c.Exhaustive(fmt.Sprintf("%s: all sequences of 3 and of 4 of its %d operations", probe.typ, nops))
+			c.Exhaustive(fmt.Sprintf("%s: all sequences of 3..%d of its %d operations", probe.typ, maxL, nops))
 		}
 		// seeded triples and longer
 		n := c.Pick(40, 5000)
